@@ -617,12 +617,30 @@ impl<'a, 'b> Gen<'a, 'b> {
                 self.sym("(");
                 self.expr(2);
                 self.sym(")");
+                let inside = c == "case" && self.t.chance(1, 4);
+                if inside {
+                    self.tag("stmt-case-inside");
+                    self.kw("inside");
+                }
                 let n = 1 + self.t.below(3);
                 for _ in 0..n {
-                    self.expr(1);
-                    if self.t.chance(1, 3) {
-                        self.sym(",");
+                    if inside {
+                        // open_range_list
+                        if self.t.flip() {
+                            self.sym("[");
+                            self.const_expr(0);
+                            self.sym(":");
+                            self.const_expr(0);
+                            self.sym("]");
+                        } else {
+                            self.expr(0);
+                        }
+                    } else {
                         self.expr(1);
+                        if self.t.chance(1, 3) {
+                            self.sym(",");
+                            self.expr(1);
+                        }
                     }
                     self.sym(":");
                     self.stmt_or_null(d - 1);
@@ -784,6 +802,12 @@ impl<'a, 'b> Gen<'a, 'b> {
                 let s = *self.t.pick(&["->", "->>"]);
                 self.sym(s);
                 self.var_ref_ident_only();
+                self.sym(";");
+            }
+            10 if self.t.chance(1, 3) => {
+                self.tag("stmt-break-continue");
+                let k = *self.t.pick(&["break", "continue"]);
+                self.kw(k);
                 self.sym(";");
             }
             10 => {
@@ -1499,9 +1523,242 @@ impl<'a, 'b> Gen<'a, 'b> {
         self.vars.truncate(saved_vars);
     }
 
+    /// variable of an anonymous enum / struct type
+    pub fn enum_struct_variable(&mut self) {
+        self.tag("enum-struct-variable");
+        if self.t.flip() {
+            self.kw("enum");
+            if self.t.flip() {
+                let ty = *self.t.pick(&["logic", "bit", "int"]);
+                self.kw(ty);
+                if ty != "int" {
+                    self.packed_dims(1);
+                }
+            }
+            self.sym("{");
+            let n = 1 + self.t.below(3);
+            for i in 0..n {
+                if i > 0 {
+                    self.sym(",");
+                }
+                let m = self.fresh();
+                let tk = self.id(&m);
+                self.expect(tk, "EnumIdentifier", F_DECL, &["EnumNameDeclaration"]);
+                if self.t.chance(1, 3) {
+                    self.sym("=");
+                    self.const_expr(0);
+                }
+            }
+            self.sym("}");
+        } else {
+            self.kw("struct");
+            if self.t.flip() {
+                self.kw("packed");
+            }
+            self.sym("{");
+            let n = 1 + self.t.below(2);
+            for _ in 0..n {
+                let ty = *self.t.pick(&["logic", "bit", "int", "byte"]);
+                self.kw(ty);
+                if ty == "logic" || ty == "bit" {
+                    self.packed_dims(1);
+                }
+                let m = self.fresh();
+                let tk = self.id(&m);
+                self.expect(tk, "VariableIdentifier", F_DECL, &["StructUnionMember"]);
+                self.sym(";");
+            }
+            self.sym("}");
+        }
+        let name = self.fresh_special();
+        let tk = self.id(&name);
+        self.expect(tk, "VariableIdentifier", F_DECL, &["DataDeclarationVariable"]);
+        if self.t.chance(1, 4) {
+            self.range();
+        }
+        self.sym(";");
+        self.vars.push(name);
+    }
+
+    /// specparam_declaration is a non_port_module_item: module body only, never inside generate constructs
+    pub fn specparam_declaration(&mut self) {
+        self.tag("specparam");
+        self.kw("specparam");
+        if self.t.chance(1, 3) {
+            self.range();
+        }
+        let name = self.fresh();
+        self.id(&name);
+        self.sym("=");
+        self.const_expr(1);
+        self.sym(";");
+    }
+
+    pub fn misc_module_item(&mut self) {
+        match self.t.below(6) {
+            0 => {
+                self.tag("defparam");
+                self.kw("defparam");
+                self.id("u_inst");
+                self.sym(".");
+                self.id("WIDTH");
+                self.sym("=");
+                self.const_expr(1);
+                self.sym(";");
+            }
+            1 | 2 => {
+                self.tag("clocking");
+                if self.t.chance(1, 4) {
+                    self.kw("default");
+                }
+                self.kw("clocking");
+                let name = self.fresh();
+                self.id(&name);
+                self.event_control_simple();
+                self.sym(";");
+                let n = self.t.below(3);
+                for _ in 0..n {
+                    let d = *self.t.pick(&["input", "output"]);
+                    self.kw(d);
+                    if self.t.chance(1, 3) {
+                        self.sym("#");
+                        self.num("1");
+                    }
+                    self.var_ref_ident_only();
+                    self.sym(";");
+                }
+                self.kw("endclocking");
+                if self.t.chance(1, 3) {
+                    self.sym(":");
+                    self.id(&name);
+                }
+            }
+            3 => {
+                self.tag("concurrent-assertion");
+                if self.t.flip() {
+                    let l = self.fresh();
+                    self.id(&l);
+                    self.sym(":");
+                }
+                let k = *self.t.pick(&["assert", "assume", "cover"]);
+                self.kw(k);
+                self.kw("property");
+                self.sym("(");
+                self.event_control_simple();
+                if self.t.chance(1, 3) {
+                    self.kw("disable");
+                    self.kw("iff");
+                    self.sym("(");
+                    self.var_ref_ident_only();
+                    self.sym(")");
+                }
+                self.var_ref_ident_only();
+                let op = *self.t.pick(&["|->", "|=>"]);
+                self.sym(op);
+                if self.t.flip() {
+                    self.sym("##");
+                    self.num("1");
+                }
+                self.var_ref_ident_only();
+                self.sym(")");
+                if k == "cover" || self.t.flip() {
+                    self.sym(";");
+                } else {
+                    self.kw("else");
+                    self.push("$error", Class::SysIdent);
+                    self.sym("(");
+                    self.string_lit();
+                    self.sym(")");
+                    self.sym(";");
+                }
+            }
+            4 => {
+                self.tag("dpi-import");
+                self.kw("import");
+                let s = *self.t.pick(&["\"DPI-C\"", "\"DPI\""]);
+                self.push(s, Class::Str);
+                if self.t.chance(1, 3) {
+                    let q = *self.t.pick(&["pure", "context"]);
+                    self.kw(q);
+                }
+                if self.t.chance(1, 3) {
+                    self.id("c_name_1");
+                    self.sym("=");
+                }
+                self.kw("function");
+                let ty = *self.t.pick(&["int", "void", "real", "byte"]);
+                self.kw(ty);
+                let name = self.fresh();
+                let tk = self.id(&name);
+                self.expect(tk, "FunctionIdentifier", F_DESIGN, &["FunctionPrototype"]);
+                self.sym("(");
+                if self.t.flip() {
+                    self.kw("input");
+                    self.kw("int");
+                    self.id("dpi_a");
+                }
+                self.sym(")");
+                self.sym(";");
+            }
+            _ => {
+                self.tag("property-declaration");
+                let seq = self.t.flip();
+                self.kw(if seq { "sequence" } else { "property" });
+                let name = self.fresh();
+                self.id(&name);
+                if self.t.flip() {
+                    self.sym("(");
+                    self.id("pa");
+                    if self.t.flip() {
+                        self.sym(",");
+                        self.id("pb");
+                    }
+                    self.sym(")");
+                }
+                self.sym(";");
+                self.event_control_simple();
+                self.var_ref_ident_only();
+                if seq {
+                    self.sym("##");
+                    self.num("1");
+                    self.var_ref_ident_only();
+                } else {
+                    self.sym("|->");
+                    self.var_ref_ident_only();
+                }
+                self.sym(";");
+                self.kw(if seq { "endsequence" } else { "endproperty" });
+                if self.t.chance(1, 3) {
+                    self.sym(":");
+                    self.id(&name);
+                }
+            }
+        }
+    }
+
+    /// @(posedge x) / @(x)
+    pub fn event_control_simple(&mut self) {
+        self.sym("@");
+        self.sym("(");
+        if self.t.flip() {
+            let e = *self.t.pick(&["posedge", "negedge"]);
+            self.kw(e);
+        }
+        self.var_ref_ident_only();
+        self.sym(")");
+    }
+
     /// one module_or_generate_item (depth bounds generate nesting)
     pub fn module_item(&mut self, depth: usize) {
         let gen_w = if depth > 0 { 3 } else { 0 };
+        if self.t.chance(1, 12) {
+            if self.t.flip() {
+                self.enum_struct_variable();
+            } else {
+                self.misc_module_item();
+            }
+            return;
+        }
         match self.t.weighted(&[5, 5, 2, 3, 4, 4, 3, 3, 2, gen_w, 2, 1, 1, 1]) {
             0 => self.net_declaration(),
             1 => self.var_declaration(),
